@@ -106,6 +106,9 @@ let run_handle parts =
     (* a client-address header that is no address: 400 Bad Request, nothing handled, nothing forwarded *)
     "st=http-400 n=0 resp=- upq=- || spec=ok"
   else
+  (* "<listener>@<path>": http.path is accepted by the configuration but never handed to the handlers (h.path stays
+     empty), so every URL path is served alike — modelled as it is; no property speaks about the path *)
+  let f = List.map (fun (k, v) -> if k = "l" && String.contains v '@' then (k, String.sub v 0 (String.index v '@')) else (k, v)) f in
   let c = parse_cfg (fld f "cfg") in
   let l = fld f "l" in
   let lk = listener_of (List.hd (String.split_on_char '-' l)) in
